@@ -7,8 +7,14 @@ spec/MGCycleGen.tla   (G) histories with predicted call logs and corrections -> 
 spec/MGCycleRate.tla  (V) runs of the real MultiGrid on a LAFEM Q1 Poisson hierarchy (harness/c09_mgreal.cpp):
                       expression-log grammar, documented call sequence, rate(L) < 1/2, rate(L) <= rate(2) + 0.15
 spec/MGCycleXfer.tla  (V) the same hierarchy converted to other data/index types (LAFEM::Transfer::convert) and wrapped in
-                      Global::Matrix/Vector/Filter/Transfer (with/without coarse muxer) - harness/c09_mgxfer.cpp: same
-                      correction as the plain LAFEM hierarchy, documented call sequence, transfer operations agree
+                      Global::Matrix/Vector/Filter/Transfer (with/without coarse muxer), or with cloned / moved transfer
+                      objects - harness/c09_mgxfer.cpp: same correction as the plain LAFEM hierarchy, documented call
+                      sequence, transfer operations agree
+spec/MGCycleXferGen.tla (G) life-cycle histories of the transfer objects (build, then clone in every mode / convert /
+                      move / compile / accessor operations) for LAFEM::Transfer and Global::Transfer (without / with coarse
+                      muxer) over Z_p data with three different matrices P, R, T: slots, prol / rest / trunc and the
+                      multigrid correction through the resulting objects as predicted by TLC (Apply of MGCycle.tla with the
+                      ORIGINAL operators) - harness/c09_mgxlife.cpp (real LAFEM / Global objects, exact integer arithmetic)
 """
 import os, json, re, threading
 import concurrent.futures as cf
@@ -232,6 +238,84 @@ def validate_xfer(chk, binary):
     chk.extra["transfer_variant_runs"] = len(runs)
 
 
+LIFE_OPS = ["clone-default", "clone-shallow", "clone-weak", "clone-deep", "clone-layout", "convert", "convert-index", "convert-float",
+            "convert-self", "move-ctor", "move-assign", "move-self", "compile", "swap-rt", "fill"]
+LIFE_KINDS = ["lafem", "global", "global-muxer"]
+
+
+def life_jobs(tier, seed):
+    """(name, cfg text) of the TLC runs of spec/MGCycleXferGen.tla"""
+    def cfg(sd, kinds, nlev, depth):
+        return ("SPECIFICATION Spec\nCONSTANTS Seed = %d Kinds = %s NLev = %d Depth = %d OpSet = %s\nINVARIANTS SlotLaw Emit\nCHECK_DEADLOCK FALSE\n"
+                % (sd, _set(kinds), nlev, depth, _set(LIFE_OPS)))
+    if tier == "quick":
+        return [("life N4 depth2", cfg(seed, LIFE_KINDS, 4, 2))]
+    jobs = [("life %s N4 depth3" % k, cfg(seed, [k], 4, 3)) for k in LIFE_KINDS]
+    jobs += [("life N%d depth2 seed+%d" % (n, q), cfg(seed + q, LIFE_KINDS, n, 2)) for q, n in ((1, 2), (2, 3), (3, 5), (4, 6))]
+    return jobs
+
+
+def life_sig(c, r):
+    ops = c.get("ops") or []
+    return {"kind": "xlife", "what": r.get("what", "other"), "transfer": c.get("kind"), "build": c.get("build"),
+            "lastop": ops[-1] if ops else "-", "outcome": r.get("outcome", "mismatch")}
+
+
+def validate_life(chk, binary):
+    """(G) life-cycle histories of the transfer objects, expected values from spec/MGCycleXferGen.tla"""
+    jobs = life_jobs(chk.tier, vlib.seed())
+    files = []
+    for k, (nm, txt) in enumerate(jobs):
+        fn = "gen_MGCycleXferGen_%d_%d.cfg" % (os.getpid(), k)
+        with open(os.path.join(vlib.SPEC, fn), "w") as f:
+            f.write(txt)
+        files.append(fn)
+    cases = []
+    try:
+        with cf.ThreadPoolExecutor(max_workers=4) as ex:
+            futs = [(ex.submit(vlib.tlc, "MGCycleXferGen", fn, timeout=2400, xmx="2g", tag="C09life%d" % k), nm)
+                    for k, (fn, (nm, _)) in enumerate(zip(files, jobs))]
+            for f, nm in futs:
+                r = f.result()
+                chk.add_tlc(r, "gen " + nm)
+                if r.violation:
+                    chk.model_violation(r, "MGCycleXferGen.tla invariant (%s)" % nm)
+                data = [c for c in r.printed if c.get("kind") == "data"]
+                if len(data) != 1:
+                    raise vlib.MachineryError("MGCycleXferGen (%s): expected one data record, got %d" % (nm, len(data)))
+                for c in r.printed:
+                    if c.get("kind") != "data":
+                        c["data"] = data[0]
+                        c["job"] = nm
+                        cases.append(c)
+    finally:
+        for fn in files:
+            try:
+                os.remove(os.path.join(vlib.SPEC, fn))
+            except OSError:
+                pass
+    if not cases:
+        raise vlib.MachineryError("MGCycleXferGen produced no cases")
+    # the enumeration is what the module says it is: every kind, every operation, objects that restrict with T after an exchange
+    seen_ops = set(o for c in cases for o in c["ops"])
+    if seen_ops != set(LIFE_OPS) or set(c["kind"] for c in cases) != set(LIFE_KINDS) or not any(c["slots"]["r"] == "T" for c in cases):
+        raise vlib.MachineryError("MGCycleXferGen: enumeration incomplete (operations %s)" % sorted(seen_ops))
+    res = vlib.run_cases(binary, cases, tmo=60)
+    for c, x in zip(cases, res):
+        if x.get("ok") is False and str(x.get("why", "")).startswith("machinery:"):
+            raise vlib.MachineryError("c09_mgxlife: %s (case %s %s %s)" % (x.get("why"), c["kind"], c["build"], c["ops"]))
+    vlib.judge_results(chk, cases, res, life_sig, keyf=lambda c: json.dumps(["xlife", c["seed"], c["kind"], c["N"], c["build"], c["ops"]]),
+                       harness="c09_mgxlife", nontrivial=lambda c: len(c["ops"]) >= 1)
+    chk.traces += len(cases)
+    chk.extra["transfer_lifecycle_histories"] = len(cases)
+    chk.extra["transfer_lifecycle_histories_with_multigrid"] = sum(1 for c in cases if c["apps"])
+    chk.extra["transfer_lifecycle_multigrid_applications"] = sum(len(c["apps"]) for c in cases)
+    chk.extra["transfer_lifecycle_by_kind"] = {k: sum(1 for c in cases if c["kind"] == k) for k in LIFE_KINDS}
+    c = cases[len(cases) // 2]
+    chk.sample({"transfer": c["kind"], "build": c["build"], "ops": c["ops"], "slots": c["slots"], "direct": c["direct"][:1],
+                "apps": [{"cycle": CYC[a["cyc"]], "peak": a["peak"], "calls": a["calls"][:16], "cor": a["cor"]} for a in c["apps"][:2]]})
+
+
 def run(chk):
     tier = chk.tier
     bins = {}
@@ -239,7 +323,7 @@ def run(chk):
 
     def do_build():
         try:
-            bins["mock"], bins["real"], bins["xfer"] = vlib.build(["c09_mgmock", "c09_mgreal", "c09_mgxfer"], jobs=4)
+            bins["mock"], bins["real"], bins["xfer"], bins["xlife"] = vlib.build(["c09_mgmock", "c09_mgreal", "c09_mgxfer", "c09_mgxlife"], jobs=4)
         except Exception as e:  # reported below, in the main thread
             err.append(e)
     bt = threading.Thread(target=do_build)
@@ -278,6 +362,8 @@ def run(chk):
     # (V) real LAFEM hierarchy
     validate_real(chk, bins["real"])
     validate_xfer(chk, bins["xfer"])
+    # (G) life-cycle of the transfer objects
+    validate_life(chk, bins["xlife"])
 
     chk.exhaustive = True
     chk.rule = ("(M) every cycle x sub-range top..crs of %d levels x left-over _counters contents; (G) every history of spec/MGCycleGen.tla "
@@ -286,7 +372,11 @@ def run(chk):
                 "set_adapt_cgc / all; each replayed on the real MultiGrid over Z_32003 mocks with poisoned level vectors, call log and correction compared "
                 "exactly; non-trivial = at least one application with L >= 1; distinct = distinct (seed, hierarchy, application configurations); "
                 "(V) every recorded run of the LAFEM hierarchy validated by TLC against spec/MGCycleRate.tla, every (variant, run) of the converted / "
-                "Global:: hierarchies against spec/MGCycleXfer.tla" % (7 if tier == "quick" else 9, 6))
+                "Global:: / cloned hierarchies against spec/MGCycleXfer.tla; (G, transfer life-cycle) every history of spec/MGCycleXferGen.tla: "
+                "{LAFEM::Transfer, Global::Transfer, Global::Transfer with coarse muxer} x build {3 matrices, 2 matrices, default} x up to %d operations out "
+                "of clone (default / shallow / weak / deep / layout+copy), convert (same type / via other index type / via float / self), move "
+                "construction / assignment / self-assignment, compile, accessor fill / exchange - slots, prol / rest / trunc and V/F/W corrections "
+                "through the resulting objects compared exactly with TLC's values" % (7 if tier == "quick" else 9, 6, 2 if tier == "quick" else 3))
     for c in cases[len(cases) // 3: len(cases) // 3 + 2]:
         chk.sample({"N": c["N"], "pre/post/peak/cs": [c["pre"], c["post"], c["peak"], c["cs"]], "k": c["k"],
                     "apps": [{"how": a["how"], "cycle": CYC[a["cyc"]], "top": a["top"], "crs": a["crs"], "adapt": ADAPT[a["adapt"]],
@@ -301,13 +391,18 @@ def run(chk):
         "plays no role in it; configurations whose adaptive denominator is 0 mod p are skipped (counted)",
         "Global:: layer on ONE process (null gates; coarse muxer absent or with this process as child and parent over a size-1 sibling "
         "communicator): ghost muxers / rest_send / prol_recv of genuinely distributed hierarchies are not explored",
+        "transfer life-cycle part: dense 3x2 / 2x3 transfer matrices with residues of Z_32003 as entries (sparsity patterns of FE transfer "
+        "matrices only in the floating variants 'clone' / 'global-clone'); clone modes Layout / Allocate carry no values by definition (Layout is "
+        "followed by a value copy, Allocate is not used); aliasing between a shallow clone and its source (later modification of the source) "
+        "is a container property (C02 / C20), not explored here; fixed coarse grid correction only (adaptive step lengths are not Z_p-exact "
+        "in floating point)",
         "floating part: Q1 Poisson on the unit square, Jacobi(0.8) smoothing, mesh levels 2..%d; rate abstraction = max per-cycle residual "
         "ratio in permille (floor); the rate bounds are stated for fixed / min-energy coarse grid correction only" % (6 if tier == "quick" else 7),
     ]
 
 
 def replay(obj):
-    mock, real, xfer = vlib.build(["c09_mgmock", "c09_mgreal", "c09_mgxfer"], jobs=4)
+    mock, real, xfer, xlife = vlib.build(["c09_mgmock", "c09_mgreal", "c09_mgxfer", "c09_mgxlife"], jobs=4)
     bad = 0
     redo_real = False
     redo_xfer = False
@@ -323,7 +418,7 @@ def replay(obj):
             print(json.dumps({"sig": v["sig"], "desc": v["desc"][:400]}))
             bad += 1
             continue
-        b = {"c09_mgmock": mock, "c09_mgxfer": xfer}.get(rp.get("harness"), real)
+        b = {"c09_mgmock": mock, "c09_mgxfer": xfer, "c09_mgxlife": xlife}.get(rp.get("harness"), real)
         r = vlib.run_cases(b, [rp["case"]], tmo=300, shards=1)[0]
         print(json.dumps({"sig": v["sig"], "result": r})[:1200])
         if r.get("ok") is not True:
